@@ -40,6 +40,13 @@ def _instant_violation(w):
         return None
     tag = w.cs.state._tag
     now, old = w.sd.get(tag, {}), snap.get(tag, {})
+    known = (set(), set())      # ids storage knew per side when the step began (a side state can MOVE between rows when entries merge)
+    for raw0 in old.values():
+        r0 = _dec(raw0)
+        for s in (0, 1):
+            o = r0["side%d" % s].get("oid")
+            if o is not None:
+                known[s].add(o)
     for eid in sorted(now):
         raw = now[eid]
         if old.get(eid) == raw:
@@ -55,7 +62,7 @@ def _instant_violation(w):
             if oid is None:
                 continue
             p = w.provs[s]
-            if sd.get("exists") == "exists" and sd.get("sync_path") and ps.get("oid") is None and not ps.get("sync_path"):
+            if sd.get("exists") == "exists" and sd.get("sync_path") and ps.get("oid") is None and not ps.get("sync_path") and oid not in known[s]:
                 # an id that enters the row together with last-synced markers is the destination of the engine's own create/mkdir
                 # (events bring ids without markers; a rename on a path-id side changes the id but keeps the old marker)
                 info = w._as_user(p, lambda: p.info_oid(oid))
